@@ -123,19 +123,19 @@ PROPS = {
                                       "RModel.BSet.select_none", "RModel.BSet.mem_toList", "RModel.BSet.toList_sorted",
                                       "RModel.BSet.mem_inter", "RModel.BSet.mem_xor", "RModel.BSet.canon_ext"] + L2_ITER + L2_ITER2,
             "owns": {"it", "rit", "mit", "uit", "reinit", "hasnext", "next?", "next!", "peek?", "peek!", "adv", "advrel", "many",
-                     "manyhs", "drain", "iterate", "values", "backward", "unset", "ranges", "l2it", "l2reinit",
+                     "manyhs", "drain", "iterate", "values", "backward", "unset", "ranges", "seqlate", "l2it", "l2reinit",
                      "l2iterate", "l2seq", "l2ranges", "l2it64", "l2reit64", "hasnext64", "next64", "peek64", "adv64", "many64", "drain64"}},
     "C05": {"suites": [("ser", 1.0), ("thresh", 1.0), ("serall", 1.0)],
             "theorems": ["RModel.Impl.encode_length", "RModel.Impl.decode_encode", "RModel.Impl.prefix_rejected",
                          "RModel.Impl.decode_no_panic", "RModel.Impl.roundtrip_wf", "RModel.BSet.canon_ext"] + F_SERIAL,
             "modules": DEFAULT_MODULES + [FACTS, "RProofs.Properties.C05"],
-            "owns": {"ser", "rd", "wrfail", "wrfailall", "rdsplit", "trunc", "wf", "dig", "add", "or", "mkrepr", "card", "addstride"}},
+            "owns": {"ser", "rd", "rdfail", "wrfail", "wrfailall", "rdsplit", "trunc", "wf", "dig", "add", "or", "mkrepr", "card", "addstride"}},
     "C06": {"suites": [("spec", 1.0)],
             "theorems": ["RModel.FormatSpec.encode_conforms", "RModel.FormatSpec.conformant_decodes", "RModel.BSet.canon_ext"] + F_SERIAL,
             "modules": DEFAULT_MODULES + [FACTS, "RProofs.Properties.C06"], "owns": {"spec", "ser", "card", "toarr"}},
     # C07 also rides on the aggregate suites, where it owns "the operands and the caller's slice are left alone": a line whose
     # result digest is right but whose operand digests / slice verdict differ (a wrong result is C11's)
-    "C07": {"suites": [("alias", 1.0), ("agg", 0.5)], "modules": ["RProofs.Heap"],
+    "C07": {"suites": [("alias", 1.0), ("agg", 0.5)], "modules": ["RProofs.Heap"], "corpus": ["corpus/C07/failed-read-into-cow-clone.txt"],
             "owns_fn": lambda op, mm, suite: ("agg" not in suite) or (op in AGG_OPS | {"dig"} and
             mm.get("expected", "").split(" ")[:1] == mm.get("got", "").split(" ")[:1] and not mm.get("got", "").startswith("panic")),
             "theorems": ["RModel.Impl.safe_nil", "RModel.Impl.safe_iff", "RModel.Impl.safe_unflagged_private",
